@@ -30,6 +30,7 @@ type conn struct {
 	c       net.Conn
 	proto   ProtocolInfo
 	open    bool
+	closed  bool
 	options map[string]interface{}
 	maxrx   int
 	sync.Mutex
@@ -95,6 +96,15 @@ func (p *conn) Close() error {
 	defer p.Unlock()
 	if p.open {
 		p.open = false
+		p.closed = true
+		return p.c.Close()
+	}
+	if !p.closed {
+		// Not (yet) open: the handshake failed before it reached the
+		// peer's header, or is still in progress.  The connection must
+		// be released all the same (and a handshake blocked on a silent
+		// peer is aborted by this).
+		p.closed = true
 		return p.c.Close()
 	}
 	return nil
